@@ -127,9 +127,11 @@ CLAIMS = {
         "W ascending).  For the instantiations the models use (hermitian 2x2; SVD complex 3x3 and real 2x2; Takagi real symmetric 2x2 and 4x4) and on EVERY path -- all orderings of the "
         "eigen/singular values including ties, every sign pattern of the eigenvalues (negative eigenvalues get the phase i) -- the returned factors reproduce the input matrix in the documented "
         "convention (ring identity in the solver's output), singular values are non-negative, the documented ascending order holds, the values are a rearrangement of the solver's, and the "
-        "Gram matrix of every returned factor is a re-indexing (up to unimodular phases off the diagonal) of the solver factor's Gram matrix, i.e. unitarity is preserved.",
+        "Gram matrix of every returned factor is a re-indexing (up to unimodular phases off the diagonal) of the solver factor's Gram matrix, i.e. unitarity is preserved.  "
+        "ERROR BOUNDS (the real LAPACK-DDISNA port disna and the *_errbd layers, hermitian 2x2/3x3, SVD 2x2/3x3, Takagi 2x2): on every path the value bound equals EPS ||m||_2 >= 0 and every "
+        "vector bound lies in [0,1] -- finite and non-negative for every sign pattern, tie and zero of the spectrum.",
    note=NOTE_COMMON + "ASSUMED, not proved: the contracts of Eigen's JacobiSVD and SelfAdjointEigenSolver (iterative/closed-form solvers inside Eigen's expression templates are outside CBMC and the "
-        "extractor) -- this is what remains of A-LINALG.  Not covered: the error-bound outputs (disna), floating-point accuracy of the factors, sizes/instantiations the models do not use. "
+        "extractor) -- this is what remains of A-LINALG.  Not covered: floating-point accuracy of the factors (the meaning of the error bounds), sizes/instantiations the models do not use. "
         "Fidelity guard: Eigen's real solver output for 18 concrete matrices (random, identity, diagonal with negative and zero entries, hierarchical) is fed through the stubs and the "
         "interpreter's wrapper results agree bit for bit with the real fs_* functions.",
    technique="symbolic execution of the wrapper code under assumed solver contracts; ring normalisation for the factorisation identities; structural Gram-matrix argument for unitarity; z3 for orderings", design='5 C12'),
